@@ -213,6 +213,7 @@ def run(chk):
     chk.assumptions += [
         "the value of an object is read from the constraints() the library prints for a copy of it (that constraints() and generators() agree is C01's obligation)",
         "the per-step hypotheses of certified_widening_terminates (upper bound, certificate decrease on value-changing steps, certificate a function of the value) are DECIDED on each step of the sampled chains, not proved for PPL's algorithms; dimension <= 3, chains <= 12",
+        "every widening / extrapolation of every domain is also called with the EMPTY set as smaller argument in each emptiness state (built EMPTY; inconsistent rows through add_*, refine_*, the constructor, an intersection, a pending row, never queried; the same after is_empty() or minimized_*()): the results, the token counts and the limited / bounded extrapolations must be the same in all states and equal to x (verified), no token spent",
         "BD_Shape<mpq_class> (BHMZ05, H79, CC76), Octagonal_Shape<mpq_class> (BHMZ05, CC76) and Rational_Box (CC76): upper bound, value-dependence, argument unchanged, tokens and limited extrapolations are judged the same way; they have no certificate class, so no per-step certificate check (only the generic theorems apply); grids and the powerset widenings themselves are not run (Grid_Certificate and the multiset order are covered on the proof side, the multiset order also by the ps tie)",
     ]
     # ---- facts from the source, proofs ----
@@ -277,6 +278,9 @@ def run(chk):
     chk.extra["routes"] = {k[6:]: v for k, v in sorted(cov.items()) if k.startswith("route:")}
     chk.extra["value_dependence_pairs"] = {k[5:]: v for k, v in sorted(cov.items()) if k.startswith("same:")}
     chk.extra["status_vectors_of_widened_receivers"] = len([k for k in cov if k.startswith("flagsx:")])
+    chk.extra["empty_smaller_argument"] = {"states_built": {k[6:]: v for k, v in sorted(cov.items()) if k.startswith("empty:")},
+                                           "status_vectors": len([k for k in cov if k.startswith("emptyflags:")]),
+                                           "widenings_with_empty_y": {k[8:]: v for k, v in sorted(cov.items()) if k.startswith("empty-y:")}}
     chk.extra["certificates_compared"] = cov.get("cmp", 0)
     chk.extra["multiset_comparisons"] = cov.get("ps", 0)
     chk.extra["families"] = dict(collections.Counter(re.search(r"family=([\w-]+)", c[1]).group(1) for c in cases if len(c) > 1 and "family=" in c[1]))
@@ -300,6 +304,8 @@ def run(chk):
         "grid_widening_calls": {k[6:]: v for k, v in sorted(cov2.items()) if k.startswith("widen:")},
         "grid_extrapolation_calls": {k[4:]: v for k, v in sorted(cov2.items()) if k.startswith("lim:")},
         "grid_iteration_steps": {k[5:]: v for k, v in sorted(cov2.items()) if k.startswith("step:")},
+        "empty_states_built": {k[6:]: v for k, v in sorted(cov2.items()) if k.startswith("empty:")},
+        "widenings_with_empty_y": {k[8:]: v for k, v in sorted(cov2.items()) if k.startswith("empty-y:")},
         "powerset_widening_calls": {k[8:]: v for k, v in sorted(cov2.items()) if k.startswith("pswiden:")},
         "powerset_steps": {k[7:]: v for k, v in sorted(cov2.items()) if k.startswith("psstep:")},
         "powerset_value_dependence_pairs": {k[7:]: v for k, v in sorted(cov2.items()) if k.startswith("pssame:")},
